@@ -114,7 +114,8 @@ void mutex_release(SMutex *M) {
 
 namespace sim {
 namespace shim {
-int fail_create_kth = 0, fail_key_create_kth = 0;
+int fail_create_kth = 0, fail_key_create_kth = 0, fail_mutex_lock_kth = 0;
+int mutex_lock_failures[MAXT] = {0};
 int last_created(int kind) { Task *t = cur(); return t ? last_created_by[t->id][kind] : -1; }
 int created_count(int kind) { return created[kind]; }
 int live_count(int kind) {
@@ -145,7 +146,8 @@ void shim_run_begin() {
   memset(last_created_by, -1, sizeof last_created_by);
   memset(created, 0, sizeof created);
   n_dtor_calls = 0;
-  shim::fail_create_kth = 0; shim::fail_key_create_kth = 0;
+  shim::fail_create_kth = 0; shim::fail_key_create_kth = 0; shim::fail_mutex_lock_kth = 0;
+  for (int i = 0; i < MAXT; i++) shim::mutex_lock_failures[i] = 0;
 }
 void shim_run_end() {}
 
@@ -197,6 +199,7 @@ int simk_pthread_mutex_lock(pthread_mutex_t *m) {
   yield_point();
   if (!cur()) return 0;
   SMutex *M = get_mutex(m, "pthread_mutex_lock");
+  if (shim::fail_mutex_lock_kth > 0 && --shim::fail_mutex_lock_kth == 0) { fired(ST_SYSCALL); shim::mutex_lock_failures[cur()->id]++; ev("mutex_lock_fail", M->num); return EAGAIN; }
   maybe_spurious();
   mutex_acquire(M);
   ev("mutex_lock", M->num);
